@@ -141,7 +141,7 @@ def m_panic(ex, st, fr, path, args, m):
     raise Panic(f"panic: {path.split('::')[-1]} {msg}")
 
 
-@model(r"^((core|std)::fmt::)?Arguments::<.*>::new_(const|v1|v1_formatted)|^(core::fmt::rt::)?Argument::<.*>::new_|^std::fmt::Arguments::|^core::fmt::rt::")
+@model(r"^((core|std)::fmt::)?Arguments(?:::<.*>)?::new_(const|v1|v1_formatted)|^(core::fmt::rt::)?Argument(?:::<.*>)?::new_|^std::fmt::Arguments::|^core::fmt::rt::")
 def m_fmt(ex, st, fr, path, args, m):
     # formatting is never the subject: an opaque token
     return Opaque("fmt")
